@@ -22,7 +22,7 @@ func run(c *vf.Ctx) {
 	if err := refnbns.SelfTest(); err != nil {
 		c.Fatalf("%v", err)
 	}
-	c.Rule("names: every position 0..15 x every byte value 0..255 on backgrounds 'A', 0x00 and ' ' (16-byte names), every length 0..16 with counter content and with trailing spaces, two-position pairs over {00,20,2A,2E,FF}; " +
+	c.Rule("names: every position 0..15 x every byte value 0..255 on backgrounds 'A', 0x00 and ' ' (16-byte names), every length 0..16 with counter content and with trailing spaces, all two-position pairs over {00,20,2A,2E,FF}, positions (0,1) and (14,15) (thorough: every adjacent pair and (0,15)) x all 65536 value pairs; " +
 		"scopes: 0..3 labels from all strings of length 1..2 (thorough 3) over {a,9,-} that are valid labels, plus label lengths 1/62/63 and totals up to the 255-octet name limit; " +
 		"packets: TransactionID and Flags over Words(16), section sizes {0,1,2}^4 x rotations through the name set, type/class Words(16) and TTL Words(32) in every section, RDATA lengths {0,4,6,255,256,65535}(+thorough) per RR section and position. " +
 		"distinct = distinct (function,input) pairs / wire images reaching a comparison")
@@ -153,8 +153,7 @@ func nameObligations(c *vf.Ctx, names []string, scopes [][]string) {
 		}
 		cases = append(cases, nc{"FRED", s}, nc{"", s}, nc{string(enum.Counter(16, 0xF0)), s})
 	}
-	vf.Par(len(cases), func(i int) {
-		name, scope := cases[i].name, cases[i].scope
+	checkName := func(name string, scope []string) {
 		scopeStr := strings.Join(scope, ".")
 		c.Case([]byte("name"), []byte(name), []byte(scopeStr))
 		n := &nbtns.NetBIOSName{Name: name, ScopeID: scopeStr}
@@ -202,10 +201,30 @@ func nameObligations(c *vf.Ctx, names []string, scopes [][]string) {
 		// the reference's encoding of the same name is decoded to the same name
 		if p, _, _ := vf.Try(func() { dec, err = nbtns.FirstLevelDecode(want) }); !p {
 			c.Check("C10/name/FirstLevelDecode/reads-RFC1001-reference-encoding", err == nil && dec != nil && padEq(dec.Name, name) && dec.ScopeID == scopeStr, func() string {
-				return fmt.Sprintf("FirstLevelDecode(%q) = %+v, %v; want name %q scope %q", want, dec, err, name, scopeStr)
+				return fmt.Sprintf("FirstLevelDecode(%q) = %s, %v; want name %q scope %q", want, showName(dec), err, name, scopeStr)
 			})
 		}
+	}
+	vf.Par(len(cases), func(i int) { checkName(cases[i].name, cases[i].scope) })
+	// two adjacent positions x all 65536 value pairs: the first two bytes (where '*' and the
+	// length-16 suffix rules live), the last two (suffix byte and padding), thorough: every adjacent pair
+	pairs := [][2]int{{0, 1}, {14, 15}}
+	if c.Thorough() {
+		pairs = nil
+		for p := 0; p < 15; p++ {
+			pairs = append(pairs, [2]int{p, p + 1})
+		}
+		pairs = append(pairs, [2]int{0, 15})
+	}
+	vf.Par(len(pairs)*256, func(i int) {
+		pq, v := pairs[i/256], i%256
+		for w := 0; w < 256; w++ {
+			b := enum.Fill(16, 'N')
+			b[pq[0]], b[pq[1]] = byte(v), byte(w)
+			checkName(string(b), nil)
+		}
 	})
+	c.Set("adjacent_position_pairs_x_65536", len(pairs))
 	c.Sample("name", map[string]any{"name_hex": fmt.Sprintf("%x", names[len(names)/2]), "first_level": refnbns.FirstLevel(refnbns.Pad(names[len(names)/2]))})
 }
 
@@ -265,6 +284,13 @@ func (t *tpkt) lib() *nbtns.NBTNSPacket {
 	return p
 }
 
+func showName(n *nbtns.NetBIOSName) string {
+	if n == nil {
+		return "<nil name>"
+	}
+	return fmt.Sprintf("name %q scope %q", n.Name, n.ScopeID)
+}
+
 func cmpLibName(n *nbtns.NetBIOSName, w rec) bool {
 	return n != nil && padEq(n.Name, w.name) && n.ScopeID == strings.Join(w.scope, ".")
 }
@@ -276,7 +302,7 @@ func cmpLibSection(s int, want []rec, p *nbtns.NBTNSPacket) (bool, string) {
 		}
 		for i, q := range p.Questions {
 			if !cmpLibName(q.Name, want[i]) || q.Type != want[i].typ || q.Class != want[i].class {
-				return false, fmt.Sprintf("question %d = {%+v type 0x%04x class 0x%04x}", i, q.Name, q.Type, q.Class)
+				return false, fmt.Sprintf("question %d = {%s type 0x%04x class 0x%04x}", i, showName(q.Name), q.Type, q.Class)
 			}
 		}
 		return true, ""
@@ -288,7 +314,7 @@ func cmpLibSection(s int, want []rec, p *nbtns.NBTNSPacket) (bool, string) {
 	for i, r := range got {
 		w := want[i]
 		if !cmpLibName(r.Name, w) || r.Type != w.typ || r.Class != w.class || r.TTL != w.ttl || int(r.RDLength) != len(w.rdata) || !bytes.Equal(r.RData, w.rdata) {
-			return false, fmt.Sprintf("%s record %d = {%+v type 0x%04x class 0x%04x ttl %d rdlength %d rdata %s}", secName[s], i, r.Name, r.Type, r.Class, r.TTL, r.RDLength, vf.HexS(r.RData))
+			return false, fmt.Sprintf("%s record %d = {%s type 0x%04x class 0x%04x ttl %d rdlength %d rdata %s}", secName[s], i, showName(r.Name), r.Type, r.Class, r.TTL, r.RDLength, vf.HexS(r.RData))
 		}
 	}
 	return true, ""
